@@ -325,6 +325,20 @@ Section Fix.
                       then Some (g :: match od with Some d => filter (fun x => negb (N.eqb (ff_name x) (ff_name g))) d | None => [] end)
                       else od) fs.
 
+  (* state_search_fetch (search.c) looks in the list of ALL the files of the array taken when the command starts (path, size,
+     time-stamp), but reads the bytes of a candidate only when they are needed: what fix has written into that file meanwhile
+     is what is read (a twin repaired in an earlier stripe gives its repaired block), and a candidate that is no longer
+     there (fix itself renamed it to .unrecoverable) simply does not match (c59fbb3; before, fix gave up).  A candidate that
+     became shorter than the block to read does not match either: its block list ends before. *)
+  Definition search_view (fs0 cur : list (option fsdisk)) : list (option fsdisk) :=
+    mapi (fun j od => match od with
+                      | None => None
+                      | Some d => Some (flat_map (fun g0 => match fs_find cur j (ff_name g0) with
+                                                          | Some g => [mkFF (ff_name g0) (ff_size g0) (ff_mtime g0) (ff_nsec g0) (ff_inode g0) (ff_blocks g)]
+                                                          | None => []
+                                                          end) d)
+                      end) fs0.
+
   (* handle_write of buffer block b at block idx of the file (write size = block length of the recorded size) *)
   Definition write_block (g : fsfile) (f : cfile) (idx : nat) (b : bid) : fsfile :=
     let len := block_len bs (cf_size f) idx in
@@ -515,7 +529,7 @@ Section Fix.
         fold_left (fun s x => let '(j, f, i) := x in rs_flag s (j, cf_name f) fl_set_damaged) (bad_files failed) s1
       else
         let '(rec, s1a) := parity_phase o pos s1 in
-        let '(res, failed', buf, jn', rtags) := repair pos (co_nosearch o) fs0 failed rec (da_buf a) (r_jn s1a) in
+        let '(res, failed', buf, jn', rtags) := repair pos (co_nosearch o) (search_view fs0 (r_fs s1a)) failed rec (da_buf a) (r_jn s1a) in
         let s1b := rs_tag (rs_setjn s1a jn') rtags in
         match res with
         | ROk =>
